@@ -117,7 +117,8 @@ def parseConf (ws : List String) : Conf := Id.run do
       match k with
       | "cap" => c := { c with cap := v.toNat?.getD 0 }
       | "ops" => c := { c with ops := v.toNat?.getD 1 }
-      | "ival" => c := { c with ival := v.toNat?.getD 1000 }
+      -- [ival<=0] time.After(d) with d <= 0 fires at once, exactly like d = 0: a negative interval is the model's interval 0
+      | "ival" => c := { c with ival := (v.toInt?.getD 1000).toNat }
       | _ => pure ()
     | _ => pure ()
   return c
